@@ -26,6 +26,7 @@ type Parser struct {
 	stream   uint8
 	function uint8
 	wbit     bool
+	depth    int  // number of lists enclosing the item being parsed
 	strict   bool // immutable after NewParser
 }
 
@@ -126,6 +127,7 @@ func (p *Parser) initInput(input string) {
 	p.data = input
 	p.len = len(input)
 	p.pos = 0
+	p.depth = 0
 }
 
 // errf builds a *ParseError at the parser's current offset.
@@ -313,7 +315,16 @@ func (p *Parser) parseItem() (secs2.Item, error) {
 	// parse data item body
 	switch itemType {
 	case secs2.ListFormatCode:
+		// Lists nest by recursion (parseList -> parseItem -> parseList): refuse
+		// what secs2 could neither encode nor decode anyway instead of recursing
+		// as deep as the text says.
+		if p.depth >= secs2.MaxListDepth {
+			return nil, p.errf("list nesting exceeds the maximum depth of %d", secs2.MaxListDepth)
+		}
+
+		p.depth++
 		item, err = p.parseList(maxSize)
+		p.depth--
 	case secs2.ASCIIFormatCode:
 		if p.strict {
 			item, err = p.parseASCIIStrict(maxSize)
